@@ -150,6 +150,14 @@ def gen_cfgs(ctx, n):
     c = kfacsim.Config(rng, world=4, k=2, colocate=True, method='eigen', prediv=True, sym=True, cap_mb=0.0, accum=1, hook=True)
     c.ops = ['f1', 's', 'm', 'f1', 's', 'm']
     cfgs.append(c)
+    # directed corner: COMM-OPT requested as a fraction a hair below one (0.1 added ten times = 0.9999999999999999), which the
+    # assignment resolves to ALL ranks being gradient workers: nothing but factors is ever communicated (C13-mutW decided
+    # `broadcast_gradients()` from the requested fraction instead of the resolved worker count)
+    for w_ in (2, 4):
+        c = kfacsim.Config(rng, world=w_, k=w_, colocate=True, cap_mb=0.0, accum=1, hook=True)
+        c.frac_hair = True
+        c.ops = ['f1', 's', 'm', 'f1', 's']
+        cfgs.append(c)
     while len(cfgs) < n:
         cfg = kfacsim.Config(rng)
         ops = []
